@@ -40,8 +40,11 @@ ASSUMPTIONS = ["keys handed to the constructor are distinct (the library's docum
 def _history(rng, keys, absent, n_ops, lo=-9, lo_hi=None):
     ops = []
     for _ in range(n_ops):
-        t = rng.choice(["getvec", "getvec", "get1", "setscalar", "seteach", "fill", "contains", "items", "hs_contains", "zeros_like", "ones_like", "add_self", "eq_self", "eq_other", "add_perm", "eq_big", "like_set", "hs_contains1", "iadd_num", "iadd_table", "acc_like"])
-        if t == "acc_like":
+        t = rng.choice(["getvec", "getvec", "get1", "setscalar", "seteach", "fill", "contains", "items", "hs_contains", "zeros_like", "ones_like", "add_self", "eq_self", "eq_other", "add_perm", "eq_big", "like_set", "hs_contains1", "iadd_num", "iadd_table", "acc_like", "eq_keys"])
+        if t == "eq_keys":
+            # == against a table with the same values and the same bucket layout in which ONE key is another key of the same bucket
+            ops.append({"t": t, "i": rng.randrange(len(keys))})
+        elif t == "acc_like":
             # the accumulator idiom: acc = zeros_like(t); acc += t; then a write into acc (some keys / fill / += again); acc holds what
             # the dictionary says and t -- the table that was ADDED -- is unchanged
             sub = rng.sample(keys, rng.randint(1, len(keys)))
@@ -169,6 +172,17 @@ def _num(x):
     return float(x) if isinstance(x, float) else int(x)
 
 
+def _other_key(p, o):
+    """a key absent from the table that falls into the same bucket as key number o["i"] (None when the key dtype has no room)"""
+    m = p["mod"] if p["mod"] is not None else 2 * len(p["keys"]) - 1
+    info = np.iinfo(np.dtype(p["kdtype"]))
+    for mult in (1, 2, 3, -1, -2):
+        k2 = p["keys"][o["i"]] + mult * m
+        if info.min <= k2 <= info.max and k2 not in p["keys"] and (k2 >= 0 or info.min < 0):
+            return k2
+    return None
+
+
 def run_impl(p):
     from npstructures import HashTable, HashSet
     def g():
@@ -186,6 +200,10 @@ def run_impl(p):
         bufs = {}
         def qarr(ks):
             # a fresh query array, or (qbuf) the caller's batch buffer of that length, refilled in place
+            if not p.get("qbuf") and ks and len(trace) % 3 == 1 and max(abs(k) for k in ks) < 2 ** 62 and (kd.kind == "i" or (min(ks) >= 0 and kd.itemsize < 8)):
+                # the keys as a plain Python list (numpy reads it as int64; a uint64-keyed table is queried with uint64 arrays only:
+                # numpy promotes int64 with uint64 to float64, which is not a key type)
+                return list(ks)
             if not p.get("qbuf") or not ks:
                 return np.array(ks, dtype=qd)
             b = bufs.setdefault(len(ks), np.zeros(len(ks), dtype=qd))
@@ -208,7 +226,7 @@ def run_impl(p):
                 if k == "contains":
                     return [bool(x) for x in t.contains(qarr(o["ks"]))]
                 if k == "hs_contains":
-                    return [bool(x) for x in hs.contains(np.array(o["ks"], dtype=qd))]
+                    return [bool(x) for x in hs.contains(qarr(o["ks"]))]
                 if k == "items":
                     a = htgen.sort_pairs((kk, _num(v)) for kk, v in t.items())
                     b = htgen.sort_pairs((kk, _num(v)) for kk, v in t.to_dict().items())
@@ -267,6 +285,13 @@ def run_impl(p):
                         v1 = np.array([o["base"] + 3 * i for i in range(len(keys))], dtype=np.int64)
                         v2 = v1.copy(); v2[o["i"]] += o["delta"]
                     return bool(HashTable(keys, v1, **kw) == HashTable(keys, v2, **kw))
+                if k == "eq_keys":
+                    k2 = _other_key(p, o)
+                    if k2 is None or not isinstance(p["vals"], list):
+                        return "not-judged"
+                    keys2 = keys.copy(); keys2[o["i"]] = k2
+                    cur = np.array([_num(x) for x in t[keys]])
+                    return bool(t == HashTable(keys2, cur, **kw)) or bool(HashTable(keys2, cur, **kw) == t)
                 if k == "eq_other":
                     cur = [_num(x) for x in t[keys]]
                     cur[o["i"]] = cur[o["i"]] + o["delta"]
@@ -373,6 +398,8 @@ def oracle(p):
             trace.append(o["delta"] == 0)
         elif k == "eq_other":
             trace.append(o["delta"] == 0)
+        elif k == "eq_keys":
+            trace.append(None if _other_key(p, o) is None or not isinstance(p["vals"], list) else False)
     return {"k": "trace", "v": trace}
 
 
